@@ -263,6 +263,33 @@ let kvhist (type v) (cfg : v cfg) (rn : v runner) (vacuum_prog : (z list -> v ha
              | _ -> pr "err")
           done
         done
+    | "cvacuum" ->
+        let h = rd_int () in let before = rd_z () in let corder = rd_vnames () in
+        let _seed = rd_z () in let nm = rd_int () in
+        (match vacuum_prog with
+         | None -> failwith "vacuum_needs_rows_mode"
+         | Some vp ->
+             let b0 = !b in let h0 = geth h in
+             let (r, tr) = exec (vp corder h0 before) in
+             (match r with
+              | Done (h', None) -> seth h h'; pr "ok"
+              | Done (h', Some _) -> seth h h'; pr "err"
+              | Failed e when e = z_of_small 99 -> pr "panic"
+              | _ -> pr "err");
+             pr_trace tr "{" "}";
+             let t_rec = z_of_string "1700000000000000005" in
+             for j = 0 to nm do
+               let ((bj, _), _) = rn.runp big_fuel [] (Some (z_of_small j)) b0 (vp corder h0 before) in
+               for pass = 0 to 1 do
+                 let order = rd_vnames () in let rret = rd_vnames () in
+                 let ((_, rr), _) = rn.runp big_fuel [] None bj (open0 cfg (pass = 0) None t_rec order rret) in
+                 pr "C";
+                 (match rr with
+                  | Done hd -> pr "ok"; pr_list (fun (k, c) -> pr_sval k; pr_cv c) (kv_dump hd)
+                  | Failed e when e = z_of_small 99 -> pr "panic"
+                  | _ -> pr "err")
+               done
+             done)
     | "clone" ->
         let h = rd_int () in let h2 = rd_int () in seth h2 (geth h); pr "ok"
     | "rmtomb" ->
